@@ -18,10 +18,10 @@ def programs(tier, seed, rigid):
     sig = [bx for bx in G.small_signature() if len(bx[2]) + len(bx[3]) <= 3]
     small = G.enumerate_diagrams(k, [[], [a], [a, b]], sig[::2] if tier == "quick" else sig, max_width=3)
     rng.shuffle(small)
-    for dom, cod, boxes, offs in small[:(150 if tier == "quick" else 2000)]:
+    for dom, cod, boxes, offs in small[:(150 if tier == "quick" else 1300)]:
         if len(boxes) >= 2:
             cases.append(([G.MK, dom, cod, boxes, offs], (dom, cod, boxes, offs)))
-    for _ in range(180 if tier == "quick" else 3000):
+    for _ in range(180 if tier == "quick" else 1900):
         p, info = g.diagram(n_boxes=rng.randint(2, 7))
         cases.append((p, info))
     progs = []
